@@ -24,6 +24,12 @@ func DepShapes(quick bool) []APoss {
 	// or zero revision, hyphens and colons inside the upstream part): the number is text and must survive as written
 	spell := []string{"0:1.2-3", "00:1", "01:2.0", "1.0-", "1.0-0", "0:1", "1:0", "1.00", "1-1-1", "2:1:3", "1.0+b1~"}
 	out = append(out, PossShapes(names[:1], quals[:2], ops, spell, archLists[:2], profs[:2])...)
+	// architecture lists whose entries are related to each other: a repeated name, a concrete name after (or before) a
+	// wildcard that covers it, the bare wildcard next to "all", every order - a list is a sequence, not a set
+	related := [][]string{{"amd64", "i386", "amd64"}, {"linux-any", "amd64"}, {"amd64", "linux-any", "i386"}, {"any-amd64", "amd64"}, {"hurd-any", "hurd-i386"},
+		{"any", "all"}, {"all", "any"}, {"any"}, {"all"}, {"any", "amd64"}, {"linux-any", "linux-any"}, {"gnu-linux-amd64", "amd64"}}
+	out = append(out, PossShapes(names[:1], quals[:2], ops[:1], vers[:1], related, profs[:2])...)
+	// substvars directly followed by what would be a restriction of a package, and with blanks inside the braces
 	// alphabet audit: names / numbers a change introduced into the code appear as package name, qualifier, architecture,
 	// profile name and version text - ADDED to the product one dimension at a time (the product itself stays as it is)
 	for _, t := range AuditStrings(auditName, 6) {
